@@ -53,6 +53,8 @@ class StmtMixin(CallMixin):
         return outs
 
     def stmt(s, n, p):
+        if s.root_bits is not None and not s.active(p):
+            return []
         m = getattr(s, "s_" + type(n).__name__, None)
         if m is None:
             raise Unsupported(f"statement {type(n).__name__} @ line {n.lineno}")
@@ -624,6 +626,10 @@ class StmtMixin(CallMixin):
         def k(p1, c):
             t, f = s.fork(p1, s.truthy(p1, c)) if c is not None else (p1, None)
             res = []
+            if key in s.unit.options.get("par_after", ()) or not s.unit.options.get("par_after"):
+                for q in (t, f):
+                    if q is not None:
+                        q.par_on = True
             if t is not None:
                 t.note(f"{key}:iterate")
                 for o in s.block(n.body, t):
